@@ -159,7 +159,7 @@ def obligations(ctx):
         cc = E.mk_struct("ChangeConfig", address=VLazy("change_addr", "Address"))
         return [R(tb, "self"), R(VLazy("utxos", "TransactionUnspentOutputs")), VLazy("strategy", "CoinSelectionStrategyCIP2"), R(cc), R(VM.bn(pct))]
     ob = Obligation(ctx, "c19_e2_percentage_helper", "2 collateral inputs; fee and percentage: all u64; balancing, fee presence and the final setter: arbitrary outcomes",
-                    ["TransactionBuilder::add_inputs_from_and_change_with_collateral_return"])
+                    ["TransactionBuilder::add_inputs_from_and_change_with_collateral_return"], fallback_native="e2n_c19_helper_failed")
     nok = 0
     for o in E.explore("TransactionBuilder::add_inputs_from_and_change_with_collateral_return", mk):
         if o.kind != "return":
@@ -175,7 +175,7 @@ def obligations(ctx):
             ob.vc("total collateral handed to the setter >= ceil(fee * percentage / 100)", o.pc, z3.And(req * 100 >= fee.t * pct.t, g_bal, g_fee, g_set))
         else:
             if cr.variant != "None" or tc.variant != "None":
-                ob.fail("a failed attempt leaves collateral_return or total_collateral set")
+                ob.violation("a failed attempt of the percentage helper leaves collateral_return (%s) or total_collateral (%s) set" % (cr.variant, tc.variant))
     if nok == 0:
         ob.fail("no Ok path")
     ob.finish(E)
